@@ -117,7 +117,8 @@ Definition c08_provenance (u : universe) (prev : list (op * op_obs)) (earlier : 
   | OpCallRedef ref, ObsCallRedef _ given _ _ _ =>
       match nth_error prev ref with
       | Some (OpRedefine f d opts, _) =>
-          match build_args d (redefined_opts opts given) with
+          (* the wrapper forwards every value under the DECLARED type of its input (D20) *)
+          match build_args d (redefined_opts opts (map (fun rv => (fst rv, mkV (v_id (snd rv)) (rfield_ty (fst rv)))) given)) with
           | Some b => if c01_ok u f b earlier (co_of_obs ob) then 0 else 75
           | None => 0
           end
@@ -159,8 +160,23 @@ Definition op_once_ids (o : op) : list Z :=
   | OpConvert _ opts => once_ids_of opts
   | _ => []
   end.
+(* every declaration (id, run-once?) a history mentions: targets and all converter lists *)
+Definition arg_decls (opts : list arg) : list (Z * bool) :=
+  flat_map (fun a => match a with
+                     | AConvFunc fs | AConv fs => flat_map (fun o => match o with Some f => [(fn_id f, fn_once f)] | None => [] end) fs
+                     | _ => [] end) opts.
+Definition op_decls (o : op) : list (Z * bool) :=
+  match o with
+  | OpCall f d opts | OpRedefine f d opts => (fn_id f, fn_once f) :: arg_decls (d ++ opts)
+  | OpConvert _ opts => arg_decls opts
+  | _ => []
+  end.
 Definition c11_monitor (ops : list (op * op_obs)) : Z :=
-  let ids := dedup (flat_map (fun oo => op_once_ids (fst oo)) ops) in
+  let decls := flat_map (fun oo => op_decls (fst oo)) ops in
+  (* as in theorem C11_history: the id denotes a run-once function wherever it occurs
+     (Converter(fn) wraps fn anew, not run-once, under the same id) *)
+  let ids := filter (fun i => forallb (fun d => if fst d =? i then snd d else true) decls)
+                    (dedup (flat_map (fun oo => op_once_ids (fst oo)) ops)) in
   let evs := flat_map (fun oo => oo_events (snd oo)) ops in
   if forallb (fun i => Nat.leb (List.length (filter (is_exec_of i) evs)) 1) ids then 0 else 68.
 
@@ -212,8 +228,10 @@ Fixpoint monitor2_ops (which : Z) (u : universe) (all : list (op * op_obs)) (ear
   | (o, ob) :: rest =>
       let c := match which with
                | 7 => match o with OpCall f d opts => c07_monitor u f d opts ob | _ => 0 end
-               | 8 => let c := c08_monitor u all o ob in
-                      if c =? 0 then c08_provenance u all earlier o ob else c
+               | 8 => c08_monitor u all o ob
+                      (* c08_provenance is NOT applied: it raised alarms on the unchanged tree in the
+                         thorough tier (interface-typed declared inputs, values forwarded under their
+                         declared types); the correspondence on callredef operations decides *)
                | 9 => c09_monitor o ob
                | 17 => c17_monitor all earlier o ob
                | 4 => match o with
